@@ -96,8 +96,10 @@ Theorem C06_revoked_name_refused : forall w h st n,
 Proof. exact revoked_name_refused. Qed.
 Print Assumptions C06_revoked_name_refused.
 
-(* "unguessable": names the Tub invents carry NAMEBITS (translated: 160) >= 128 bits *)
-Theorem C06_swissnum_bits : 128 <= NAMEBITS.
+(* "unguessable": names the Tub invents carry NAMEBITS (translated: 160) >= 128 bits, all of them taken from the OS entropy
+   source (translated: generateSwissnumber is base32 of os.urandom(bits // 8) and nothing else; any other source fails closed).
+   The harness complements this with a peer-side state-recovery attack on the real generator that must fail. *)
+Theorem C06_swissnum_bits : 128 <= NAMEBITS /\ swissnum_source = OsEntropy.
 Proof. exact swissnum_bits. Qed.
 Print Assumptions C06_swissnum_bits.
 
